@@ -29,6 +29,13 @@ def run(chk: Check) -> None:
     persisted_fields(chk)
     load_is_deterministic(chk)
     snapshot_isolation(chk)
+    # a restored WAITING state wakes up only through resume(): a result put into the waiting future by the load itself is a wake-up the uninterrupted execution
+    # never had (shared with C13)
+    from .c13 import resume_value_reaches_future
+    resume_value_reaches_future(chk, 'SYM-waiting-restored')
+    # "no completed step is executed again": the outcome of a step interrupted by a pause is entered before anything (a listener, a hook) can take a checkpoint (shared with C05)
+    from .c05 import no_step_lost
+    no_step_lost(chk)
     # a Bundle that is unbundled more than once ("possibly several times in a row") must give the same process each time: what unbundle() hands to the
     # load path has to be detached from the bundle, because load_members / the context mixin take values out of the saved state without copying
     ub = prog.func('persistence.Bundle.unbundle')
